@@ -74,6 +74,70 @@ theorem C20_cycle_names_on_cycle (ret : Bool) (e : String) (g : String → List 
     Resolve.Reach g e e ∧ ∀ n ∈ r.trail, Resolve.Reach g e n ∧ Resolve.ReachRefl g n e :=
   Resolve.dfs_sound ret e g fuel (g e) [] r h hf e (fun c hc => Resolve.Reach.step hc)
 
+/-! ## duplicate declarations quote the colliding key -/
+
+/-- a duplicate among imported names (`USE/REFERENCE FROM s (x AS y, z AS y)`) quotes the visible name that collides —
+    the alias — not the name of either original -/
+theorem C20_alias_duplicate_quotes_alias (path : String) :
+    ∀ (items seen : List (String × Nat × Resolve.Obj)) (d : Diag), d ∈ Resolve.aliasDups path items seen →
+      ∃ n l l0, (n, l) ∈ items.map (fun x => (x.1, x.2.1)) ∧ n ∈ (seen ++ items).map (·.1) ∧
+        d = Resolve.mk path LibErrors.DUPLICATE_DECL l [Resolve.sArg n, .int l0] := by
+  intro items
+  induction items with
+  | nil => intro seen d h; simp [Resolve.aliasDups] at h
+  | cons x xs ih =>
+    intro seen d h
+    obtain ⟨n, l, o⟩ := x
+    simp only [Resolve.aliasDups] at h
+    split at h
+    next n0 l0 o0 hf =>
+      split at h
+      · obtain ⟨n', l', l0', h1, h2, h3⟩ := ih seen d h
+        refine ⟨n', l', l0', by simp [h1], ?_, h3⟩
+        simp only [List.map_append, List.mem_append, List.map_cons, List.mem_cons] at h2 ⊢
+        rcases h2 with h2 | h2
+        · exact Or.inl h2
+        · exact Or.inr (Or.inr h2)
+      · simp only [List.mem_cons] at h
+        rcases h with h | h
+        · exact ⟨n, l, l0, by simp, by simp, h⟩
+        · obtain ⟨n', l', l0', h1, h2, h3⟩ := ih seen d h
+          refine ⟨n', l', l0', by simp [h1], ?_, h3⟩
+          simp only [List.map_append, List.mem_append, List.map_cons, List.mem_cons] at h2 ⊢
+          rcases h2 with h2 | h2
+          · exact Or.inl h2
+          · exact Or.inr (Or.inr h2)
+    next hf =>
+      obtain ⟨n', l', l0', h1, h2, h3⟩ := ih (seen ++ [(n, l, o)]) d h
+      refine ⟨n', l', l0', by simp [h1], ?_, h3⟩
+      simp only [List.map_append, List.mem_append, List.map_cons, List.mem_cons, List.map_nil, List.mem_nil_iff, or_false] at h2 ⊢
+      rcases h2 with (h2 | h2) | h2
+      · exact Or.inl h2
+      · exact Or.inr (Or.inl h2)
+      · exact Or.inr (Or.inr h2)
+
+/-- a duplicate attribute — plain, or through `SELF\\sup.attr` — quotes the attribute name under which it was entered -/
+theorem C20_attribute_duplicate_quotes_name (path : String) :
+    ∀ (items seen : List (String × Nat)) (d : Diag), d ∈ Resolve.dupDiags path items seen →
+      ∃ n l l0, (n, l) ∈ items ∧ d = Resolve.mk path LibErrors.DUPLICATE_DECL l [Resolve.sArg n, .int l0] := by
+  intro items
+  induction items with
+  | nil => intro seen d h; simp [Resolve.dupDiags] at h
+  | cons x xs ih =>
+    intro seen d h
+    obtain ⟨n, l⟩ := x
+    simp only [Resolve.dupDiags] at h
+    split at h
+    next n0 l0 hf =>
+      simp only [List.mem_cons] at h
+      rcases h with h | h
+      · exact ⟨n, l, l0, by simp, h⟩
+      · obtain ⟨n', l', l0', h1, h2⟩ := ih seen d h
+        exact ⟨n', l', l0', by simp [h1], h2⟩
+    next hf =>
+      obtain ⟨n', l', l0', h1, h2⟩ := ih _ d h
+      exact ⟨n', l', l0', by simp [h1], h2⟩
+
 /-! ## `-w` / `-i` -/
 
 /-- one `-w X` / `-i X` changes the override of class-X entries only … -/
@@ -87,7 +151,8 @@ theorem C20_switch_never_touches_errors (guard : Bool) (ov ov' : Overrides) (nam
     (h : setWarning guard ov name b = .ok ov' f) (j : Nat) (hj : severityOf j > LibErrors.SEVERITY_WARNING) :
     ov' j = ov j := by
   have := setWarningLoop_apply guard name b _ 0 ov false ov' f h j
-  rw [this]; split <;> simp [newOverride]; omega
+  have ns : ¬ switchable j = true := fun hsw => by have := switchable_le hsw; omega
+  rw [this]; split <;> simp [newOverride, ns]
 
 theorem initOverrides_false (i : Nat) : initOverrides i = false := by
   have hall : ∀ e ∈ LibErrors.entries, e.override = false := by decide
@@ -165,7 +230,7 @@ theorem C20_switch_does_not_crash (ov : Overrides) (name : String) (b : Bool) :
 
 theorem C20_unguarded_switch_crashes_witness (ov : Overrides) (name : String) (b : Bool) :
     (match setWarning false ov name b with | .crash => true | _ => false) = true := by
-  have h0 : severityOf 0 ≤ LibErrors.SEVERITY_WARNING := by decide
+  have h0 : switchable 0 = true := by decide
   have h1 : classOf 0 = none := by decide
   have hs : LibErrors.tableSize = (LibErrors.tableSize - 1) + 1 := by decide
   unfold setWarning
